@@ -126,6 +126,20 @@ def gclass_stream(ck):
     ck.coverage['generic_class_stream'] = {'cases': n, 'outcomes': hist}
 
 
+def abc_table_obligation(ck):
+    """Base/Ann.v abc_instance (isinstance incl. ABC registration) against CPython, exhaustively: every origin x every value class"""
+    r = ck.run_impl('w_checker', [{'obs': 'abc_table'}], shards=1)[0]
+    rows = (r or {}).get('rows') or []
+    terms = ['[' + '; '.join(f'(if abc_instance T{o} {U.coq_cls(c)} then 1 else 0)' for o, c, _ in rows) + ']']
+    got = ck.coq_eval(PRE, terms, chunk=1) if ck.model_ok and rows else [None]
+    bad = []
+    if got and got[0] is not None:
+        bad = [(o, c, b, g) for (o, c, b), g in zip(rows, got[0]) if int(b) != g]
+    ck.oblige('abc-instance-table', 'correspondence', bool(rows) and got[0] is not None and not bad,
+              f'{len(rows)} (origin, class) pairs agree with isinstance' if not bad else f'abc_instance differs from isinstance: {bad[:5]}')
+    ck.coverage['abc_instance_pairs'] = len(rows)
+
+
 def corner_stream(ck):
     """C08, wrapper half: keyword calls on callables that trip the source-text / receiver heuristics of the wrapper"""
     n = ck.run_impl('w_checker', [{'obs': 'corner', 'size': 1}], shards=1)[0]['size']
@@ -177,6 +191,8 @@ def run(pid, tier, seed, replay, props, judge, extra_streams=None, rule_extra=''
         r = ck.run_impl('w_checker', [w], shards=1)[0]
         return bool(r) and r.get('out') == f.get('observed_out', 1)
     ck.replay_known_findings(still_fails)
+    if replay is None and pid in ('C01', 'C02'):
+        abc_table_obligation(ck)
     P = PROFILE[pid]
     if replay is not None and replay.get('case', {}).get('obs', '').startswith('zoo'):
         cases = []
